@@ -53,3 +53,11 @@ Fixpoint assoc {A} (k : string) (l : list (string * A)) : option A :=
   | [] => None
   | (k', v) :: r => if String.eqb k k' then Some v else assoc k r
   end.
+
+(* value of the last member [k] that is a plain integer (Go: an int field keeps the last number stored) *)
+Fixpoint last_int (k : string) (ms : list (string * json)) (acc : Z) : Z :=
+  match ms with
+  | [] => acc
+  | (k', JNum z true false) :: r => last_int k r (if String.eqb k k' then z else acc)
+  | _ :: r => last_int k r acc
+  end.
